@@ -166,8 +166,49 @@ def device_id_capture(draw):
 
 
 @st.composite
+def multiline_lifetimes(draw):
+    """statements spanning several lines inside a function: locals whose last use is on an early line of
+    the statement, temporaries computed on later lines"""
+    n = draw(st.integers(2, 5))
+    names = [f"w{i}" for i in range(n)]
+    L = [programs.HDR.rstrip("\n"), "def calc(a, b):"]
+    for i, nm in enumerate(names):
+        L.append(f"    {nm} = {draw(st.sampled_from(['a', 'b', 'd0.Setting', 'd1.Setting']))} * {i + 2}")
+    order = draw(st.permutations(names))
+    nst = draw(st.integers(1, 3))
+    used = 0
+    for s_ in range(nst):
+        k = draw(st.integers(2, 4))
+        parts = []
+        for j in range(k):
+            v = order[(used + j) % n]
+            shape = draw(st.integers(0, 3))
+            if j == 0 or shape == 0:
+                parts.append(v)
+            elif shape == 1:
+                parts.append(f"(a - b) * (a + {v})")
+            elif shape == 2:
+                parts.append(f"({v} + b) * (a - {j})")
+            else:
+                parts.append(f"max(a * {j + 1}, b + {v}) - min(a, b)")
+        used += 1
+        op = draw(st.sampled_from([" +", " -", " *"]))
+        tgt = draw(st.sampled_from(["res", "db.Setting", "d2.Setting"]))
+        L.append(f"    {tgt} = (" + (op + "\n           ").join(parts) + ")")
+        if tgt == "res":
+            L.append("    d3.Setting = res")
+    L.append(f"    return {order[-1]} + a")
+    L += ["while True:", "    db.Setting = calc(d0.Setting, d1.Setting)", "    d1.Setting = calc(2, d2.Setting)", "    yield_()"]
+    return {"src": {"": "\n".join(L) + "\n"}, "env_seeds": [draw(st.integers(0, 2**31 - 1))], "pool": compare.DEFAULT_POOL, "family": "multi-line"}
+
+
+@st.composite
 def cases(draw):
-    k = draw(st.integers(0, 9))
+    k = draw(st.integers(0, 10))
+    if k == 10:
+        c = draw(multiline_lifetimes())
+        c["opts"] = VECS[draw(st.integers(0, len(VECS) - 1))]
+        return c
     if k <= 3:
         c = draw(programs.program_cases(programs.Cfg(call_bias=15, max_funcs=4, d5_args=draw(st.booleans()), multiline_pct=draw(st.sampled_from([5, 30, 60]))), nenv=2))
         c["family"] = "general"
